@@ -101,7 +101,8 @@ def generate(seed, tier, batch):
         start = sorted(r.sample(range(n), r.randint(1, n)))
         if random.Random("c19e:%d" % seed).random() < 0.1:
             start = []  # the empty clique (a sample without clicks): every node of the graph can be added to it
-        return {"kind": "clique", "graph": g, "routine": routine, "select": sel, "weights": wts, "start": start, "iterations": r.randint(1, 3), "sseed": seed,
+        via_ = random.Random("c19v:%d" % seed).random() < 0.4
+        return {"via_samples": via_, "kind": "clique", "graph": g, "routine": routine, "select": sel, "weights": wts, "start": start, "iterations": r.randint(1, 3), "sseed": seed,
                 "edit_between": r.random() < 0.3, "foreign_first": r.random() < 0.2}
     if batch == "subgraph":
         g = gen_graph(r, 10 if big else 8)
@@ -115,7 +116,8 @@ def generate(seed, tier, batch):
         start = sorted(r.sample(range(n), r.randint(1, n)))
         lo = r.randint(1, n)
         hi = r.randint(lo, n)
-        return {"kind": "subgraph", "graph": g, "routine": routine, "select": sel, "weights": wts, "start": start, "min": lo, "max": hi,
+        via_ = random.Random("c19v:%d" % seed).random() < 0.4
+        return {"via_samples": via_, "kind": "subgraph", "graph": g, "routine": routine, "select": sel, "weights": wts, "start": start, "min": lo, "max": hi,
                 "max_count": r.randint(1, 3), "subs": [sorted(r.sample(range(n), r.randint(1, n))) for _ in range(r.randint(1, 4))], "sseed": seed,
                 "edit_between": r.random() < 0.5, "foreign_first": r.random() < 0.2}
     # similarity
@@ -474,6 +476,21 @@ def _execute_once(script, w, G_in, a_in, feats_extra):
         G = G_in if G_in is not None else mkgraph(g)
         sel = script["select"]
         node_select = script["weights"] if sel == "weight" else sel
+    if kind in ("clique", "subgraph") and script.get("via_samples") and script["start"]:
+        # the seed set reaches the routine the way GBS samples do: a click pattern over the modes (mode i = i-th node of graph.nodes) converted
+        # by sample.to_subgraphs - which must name exactly the clicked nodes, whatever order the nodes were inserted in
+        from strawberryfields.apps import sample as sfsample
+        clicks = [1 if v_ in script["start"] else 0 for v_ in g["order"]]
+        try:
+            got_ = [int(x_) for x_ in sfsample.to_subgraphs([clicks], G)[0]]
+        except Exception as ex:  # noqa
+            w.violation("structure", "to_subgraphs-raises", {"exc": type(ex).__name__, "msg": str(ex)[:200], "node_order": g["order"], "clicks": clicks}, feats)
+            return
+        if sorted(got_) != sorted(script["start"]):
+            w.violation("structure", "to_subgraphs-names-the-clicked-nodes", {"node_order": g["order"], "clicks": clicks, "got": got_, "clicked_nodes": sorted(script["start"])}, feats)
+            return
+        w.probes["seed_set_through_to_subgraphs"] += 1
+        script = dict(script, start=got_)
     if kind == "clique":
         routine = script["routine"]
         start = script["start"]
